@@ -1,6 +1,15 @@
 /-
   C19 — Output payloads carry every event of a batch exactly once, well-formed.
   Property theorems only (helper lemmas: FileD/Lemmas/Payload.lean).
+
+  Reading guide. `deliverable batch` = the events `Batch.ForEach` visits. Each `<sink>_frames`
+  theorem says: the receiver's unframer applied to the bytes the sink built for ANY batch (any
+  size, any event contents, any worker buffer left by earlier batches) returns exactly the
+  deliverable events' encodings, once each, in order — under the ENCODER ASSUMPTION spelled out in
+  the hypothesis (no raw separator inside an encoded event / the envelope is one bracketed value).
+  The assumption is not provable: `encoder_assumption_needed` shows the statement is false
+  without it, and the implementation violates it for events whose text carries raw control
+  bytes (known finding C19-raw-control-byte-passthrough).
 -/
 import FileD.Lemmas.Payload
 namespace FileD.PropsC19
@@ -11,5 +20,95 @@ theorem forEach_skips_child_parent {σ : Type} (cb : σ → Ev → σ) (evs : Li
     forEach cb evs s = (deliverable evs).foldl cb s := forEach_eq_foldl cb evs s
 
 example : forEach (fun (l : List Nat) e => l ++ [e.kind]) [⟨0, [], []⟩, ⟨2, [], []⟩, ⟨1, [], []⟩] [] = [0, 1] := by decide
+
+/-! ### file, gelf, http: separator framing -/
+
+/-- **file**: the bytes written for a batch are the deliverable events, one line each -/
+theorem file_frames (lim : Nat) (wd : WD) (batch : List Ev)
+    (henc : ∀ e ∈ deliverable batch, NL ∉ e.enc) :
+    unframeSep NL (fileOut lim wd batch).2 = some ((deliverable batch).map (·.enc)) := by
+  have hdata : (fileOut lim wd batch).2 = (deliverable batch).flatMap (fun e => e.enc ++ [NL]) := by
+    simp only [fileOut]
+    rw [forEach_eq_foldl, foldl_data _ (fun e => e.enc ++ [NL]) (by intro b e; simp [Buf.append]), resetBuf_data]
+    simp
+  rw [hdata, flatMap_sep]
+  exact unframeSep_frames NL _ (by simpa using henc)
+
+example : unframeSep NL (fileOut 8 (some ⟨[1, 2, 3], 99⟩) [⟨0, [65], []⟩, ⟨2, [66], []⟩, ⟨1, [67], []⟩]).2
+    = some [[65], [67]] := by decide
+
+/-- **gelf**: NUL-terminated formatted events -/
+theorem gelf_frames (lim : Nat) (wd : WD) (batch : List Ev)
+    (henc : ∀ e ∈ deliverable batch, (0 : UInt8) ∉ gelfDoc e) :
+    unframeSep 0 (gelfOut lim wd batch).2 = some ((deliverable batch).map gelfDoc) := by
+  have hdata : (gelfOut lim wd batch).2 = (deliverable batch).flatMap (fun e => gelfDoc e ++ [0]) := by
+    simp only [gelfOut]
+    rw [forEach_eq_foldl, foldl_data _ (fun e => gelfDoc e ++ [0]) (by intro b e; simp [Buf.append]), resetBuf_data]
+    simp
+  rw [hdata, flatMap_sep]
+  exact unframeSep_frames 0 _ (by simpa using henc)
+
+example : unframeSep 0 (gelfOut 0 none [⟨0, [65], [[70, 71]]⟩, ⟨2, [66], [[72]]⟩, ⟨0, [67], [[73]]⟩]).2
+    = some [[70, 71], [73]] := by decide
+
+/-- **http** (json and raw encoder): the request body is one line per deliverable event -/
+theorem http_frames (raw : Bool) (lim : Nat) (wd : WD) (batch : List Ev)
+    (henc : ∀ e ∈ deliverable batch, NL ∉ httpContent raw e) :
+    unframeSep NL (buildAcc (httpFrame raw) lim wd batch).buf.data
+      = some ((deliverable batch).map (httpContent raw)) := by
+  rw [(buildAcc_spec (httpFrame raw) lim wd batch).1]
+  have : ((deliverable batch).map (httpFrame raw)).flatten
+      = ((deliverable batch).map (httpContent raw)).flatMap (· ++ [NL]) := by
+    rw [← flatMap_sep, List.flatMap_def]
+    rfl
+  rw [this]
+  exact unframeSep_frames NL _ (by simpa using henc)
+
+example : unframeSep NL (buildAcc (httpFrame true) 4 none [⟨0, [65], [[34, 34]]⟩, ⟨0, [66], []⟩, ⟨0, [67], [[49]]⟩]).buf.data
+    = some [[34, 34], [], [49]] := by decide
+
+/-- the body of the one request of the non-split path IS that buffer -/
+theorem http_whole_request (frame : Ev → Bytes) (lim : Nat) (wd : WD) (batch : List Ev) (sc : List Nat) :
+    ∃ b a sc', httpLikeOut frame false lim wd batch sc = .ok (b, a, sc') ∧
+      a.reqs.map (·.body) = [(buildAcc frame lim wd batch).buf.data] := by
+  simp only [httpLikeOut, sendWhole]
+  exact ⟨_, _, _, rfl, rfl⟩
+
+/-! ### buffer reuse -/
+
+/-- **buffer reuse**: what a batch produces does not depend on the worker data left by the
+    batches before it (contents, length or capacity of the reused buffer) -/
+theorem buffer_reuse_independent (lim : Nat) (wd wd' : WD) (batch : List Ev) :
+    (fileOut lim wd batch).2 = (fileOut lim wd' batch).2 ∧
+    (gelfOut lim wd batch).2 = (gelfOut lim wd' batch).2 ∧
+    (∀ frame, (buildAcc frame lim wd batch).buf.data = (buildAcc frame lim wd' batch).buf.data ∧
+              (buildAcc frame lim wd batch).begin = (buildAcc frame lim wd' batch).begin ∧
+              (buildAcc frame lim wd batch).count = (buildAcc frame lim wd' batch).count) := by
+  refine ⟨?_, ?_, ?_⟩
+  · simp only [fileOut]
+    rw [forEach_eq_foldl, forEach_eq_foldl,
+      foldl_data _ (fun e => e.enc ++ [NL]) (by intro b e; simp [Buf.append]),
+      foldl_data _ (fun e => e.enc ++ [NL]) (by intro b e; simp [Buf.append]), resetBuf_data, resetBuf_data]
+  · simp only [gelfOut]
+    rw [forEach_eq_foldl, forEach_eq_foldl,
+      foldl_data _ (fun e => gelfDoc e ++ [0]) (by intro b e; simp [Buf.append]),
+      foldl_data _ (fun e => gelfDoc e ++ [0]) (by intro b e; simp [Buf.append]), resetBuf_data, resetBuf_data]
+  · intro frame
+    have h1 := buildAcc_spec frame lim wd batch
+    have h2 := buildAcc_spec frame lim wd' batch
+    refine ⟨by rw [h1.1, h2.1], ?_, by rw [h1.2.1, h2.2.1]⟩
+    have := h1.2.2.trans h2.2.2.symm
+    exact (List.append_inj' this (by simp)).1
+
+/-- successive batches through one worker: batch `n`'s bytes are those of a fresh worker -/
+theorem file_run_independent (lim : Nat) (wd : WD) (bs : List (List Ev)) :
+    fileRun lim wd bs = bs.map (fun b => (fileOut lim none b).2) := by
+  induction bs generalizing wd with
+  | nil => rfl
+  | cons b bs ih =>
+    simp only [fileRun, List.map_cons]
+    rw [ih, (buffer_reuse_independent lim wd none b).1]
+
+example : fileRun 2 none [[⟨0, [65, 65, 65], []⟩], [⟨0, [66], []⟩]] = [[65, 65, 65, 10], [66, 10]] := by decide
 
 end FileD.PropsC19
